@@ -165,6 +165,28 @@ def run(tier):
         if len(hs) > 1:
             rep.violation("readdir-order", "tree without hard links, options %s: %d different images under %d readdir orders"
                           % (extra, len(hs), nshuf), artefact=out, data={"options": extra})
+    # ---- wide directories with link groups: more entries than any batch an implementation might read at once ---------------
+    wide = work + "/wide"
+    wfiles = []
+    for k in range(160 if tier == "quick" else 700):
+        wfiles.append({"p": ["w", "e%04d" % k], "id": 1000 + (k if k % 4 else (k // 8) * 8)})        # e0000 = e0004?? -> pairs (k, k+4) for k % 8 == 0
+    for k in range(0, len(wfiles), 8):
+        if k + 4 < len(wfiles):
+            wfiles[k + 4]["id"] = wfiles[k]["id"]
+    wfiles += [{"p": ["v", "c%02d" % k], "id": 1000 + 8 * k} for k in range(6)]                       # cross-directory links into w
+    materialise(wide + "/root", wfiles)
+    for extra in ([], ["-k"]):
+        hs = {}
+        for k in range(8 if tier == "quick" else 40):
+            out = wide + "/s%d.sqfs" % k
+            rc, e = pack(tools, so, wide + "/root", out, mode=["sorted", "reverse"][k] if k < 2 else str(SEED * 1000 + k), extra=extra)
+            replays += 1
+            if rc:
+                raise RuntimeError("gensquashfs failed: %s" % e[-300:])
+            hs.setdefault(vlib.fsha(out), k)
+        if len(hs) > 1:
+            rep.violation("readdir-order-hardlinks", "directory with %d entries and hard-link pairs, options %s: %d different images under the readdir orders %s"
+                          % (len(wfiles) - 6, extra, len(hs), sorted(hs.values())), artefact=out, data={"options": extra})
     ev.set("control_tree_without_links_identical", True)
     ev.set("trees", len(sel))
     ev.set("traces_validated_against_impl", replays)
